@@ -315,6 +315,8 @@ def raw_outcome(fn, arg):
 
 
 def check_case(ctx: runner.Ctx, case):  # noqa: C901, PLR0912, PLR0915
+    if case.get("mode") == "alias":
+        return check_alias(ctx, case)
     if case.get("mode") == "implicit":
         return check_implicit(ctx, case)
     a_spec, b_spec = case["a"], case["b"]
@@ -569,10 +571,57 @@ def lookalike_cases():
                "probes": [], "values": [], "order": False}
 
 
+# ------------------------------------------------------------------------------------ parametrised PEP 695 aliases
+_ALIAS_NS: dict = {}
+_ALIAS_SRC = """
+type Batch[T] = list[T]
+type Swap[A, B] = dict[B, A]
+type Pair[A, B] = tuple[A, B]
+type RevPair[A, B] = tuple[B, A]
+type Nested[A, B] = dict[A, list[tuple[B, A]]]
+"""
+ALIAS_PROBES = {
+    # alias spelling, plain spelling it must behave like, a datum only this reading accepts, a datum only the swapped one accepts
+    "Batch[int]": ("list[int]", [1], ["x"]),
+    "Swap[int, str]": ("dict[str, int]", {"a": 1}, {1: "a"}),
+    "Pair[int, str]": ("tuple[int, str]", [1, "a"], ["a", 1]),
+    "RevPair[int, str]": ("tuple[str, int]", ["a", 1], [1, "a"]),
+    "Nested[str, int]": ("dict[str, list[tuple[int, str]]]", {"k": [[1, "a"]]}, {"k": [["a", 1]]}),
+}
+
+
+def check_alias(ctx: runner.Ctx, case):
+    if not _ALIAS_NS:
+        exec(compile(_ALIAS_SRC, "<c15 aliases>", "exec", dont_inherit=True), _ALIAS_NS)  # noqa: S102
+    plain_src, good, bad = ALIAS_PROBES[case["name"]]
+    alias, plain = eval(case["name"], _ALIAS_NS), eval(plain_src, {})  # noqa: S307
+    ctx.case(["alias", case["name"]], True, sample={"mode": "alias", "alias": case["name"], "means": plain_src}, labels=["mode:alias"])
+    retort = Retort()
+    for datum in (good, bad):
+        outs = []
+        for tp in (alias, plain):
+            try:
+                outs.append(("ok", tspec.canon(retort.load(datum, tp))))
+            except Exception as ex:  # noqa: BLE001
+                outs.append(("err", type(ex).__name__ if valid_load_error(ex) else describe(ex)))
+        if outs[0] != outs[1]:
+            ctx.violation("alias_means_another_type", (case["name"].split("[")[0],), case,
+                          f"load({datum!r}, {case['name']}) -> {outs[0]!r}; load(.., {plain_src}) -> {outs[1]!r}")
+    # two parametrisations of one alias are two types
+    other = eval(case["name"].split("[")[0] + "[bytes, bytes]" if "," in case["name"] else case["name"].split("[")[0] + "[bytes]",  # noqa: S307
+                 _ALIAS_NS)
+    na, nb = normalize_type(alias), normalize_type(other)
+    if na == nb or na.source == nb.source:
+        ctx.violation("different_types_collapse", ("alias_parametrisation",), case,
+                      f"{case['name']}: normal form {na!r} (source {na.source!r}) vs {nb!r} (source {nb.source!r})")
+
+
 def explore(ctx: runner.Ctx):
     if ctx.shard == 0:
         for name in IMPLICIT:
             check_case(ctx, {"mode": "implicit", "name": name})
+        for name in ALIAS_PROBES:
+            runner.guarded(ctx, lambda k: check_case(ctx, k), {"mode": "alias", "name": name})
         for c in lookalike_cases():
             runner.guarded(ctx, lambda k: check_case(ctx, k), c)
     ctx.given(st_case(), lambda c: check_case(ctx, c), ctx.budget(4000, 300000))
